@@ -179,3 +179,31 @@ func auxExec(args []string) int {
 }
 
 func init() { fw.RegisterAux("exec", auxExec) }
+
+// aux: jsmon aux lex <file> — prints the lexemes of the scanner (for triage).
+func auxLex(args []string) int {
+	if len(args) < 1 {
+		return 2
+	}
+	b, err := os.ReadFile(args[0])
+	if err != nil {
+		fmt.Println(err)
+		return 2
+	}
+	lex, errText, pv, _ := scanAll(b)
+	for _, l := range lex {
+		end := l.end + 1
+		if end > len(b) {
+			end = len(b)
+		}
+		v := ""
+		if l.begin <= end && l.begin >= 0 {
+			v = string(b[l.begin:end])
+		}
+		fmt.Printf("%-14s [%d,%d] %q\n", l.typ, l.begin, l.end, v)
+	}
+	fmt.Println("error:", errText, "panic:", pv)
+	return 0
+}
+
+func init() { fw.RegisterAux("lex", auxLex) }
